@@ -53,8 +53,117 @@ def gen_timeout_focus(rng):
     return spec
 
 
+COMB_TYPE = {"zip": "zip", "and": "and", "or": "or", "sequence": "sequence", "traverse": "traverse", "map": "map",
+             "flat_map": "flat_map", "nocancel": "nocancel", "timeout": "timeout", "proxy": "proxy", "apply": "apply"}
+
+
+def gen_comb(rng):
+    """Combinator family: one or two f_* outputs over 1-3 inputs completed by other threads with
+    value / exception / falsy exception / cancellation, an optional cancel of the output; the
+    metrics of the futures the combinators create are judged at quiescence."""
+    n = rng.choice([1, 2, 2, 3])
+    inputs = [{"end": rng.choice(["val", "val", "val", "exc", "exc-falsy", "cancel"]), "at": rng.choice([0, 0.05, 0.1]), "by": rng.randrange(2)}
+              for _ in range(n)]
+    spec = {"mode": "comb", "comb": rng.choice(sorted(COMB_TYPE)), "inputs": inputs, "dup": rng.random() < 0.1 and n >= 2,
+            "out_cancel": rng.choice([None, None, None, 0, 0.05, 0.2]), "settle": 10.0, "layers": [], "final_shutdown": None}
+    spec["sim"] = runner.draw_sim_cfg(rng, est=300)
+    spec["sim"]["horizon_s"] = 5000
+    return spec
+
+
+def run_comb(spec, env):
+    from concurrent.futures import Future
+    from props.c03 import build_comb
+    from harness.env import SpyFuture
+    from harness.stackrun import fut_state
+    sim = env.sim
+    raw = [SpyFuture(env, "in%d" % i) for i in range(len(spec["inputs"]))]
+    out = build_comb(spec, env, raw)
+
+    def completer(k):
+        def body():
+            mine = sorted((inp["at"], i) for i, inp in enumerate(spec["inputs"]) if inp["by"] == k)
+            t = 0.0
+            for (at, i) in mine:
+                if at > t:
+                    env.sleep(at - t)
+                    t = at
+                inp, f = spec["inputs"][i], raw[i]
+                env.rec("complete", i, inp["end"])
+                try:
+                    if inp["end"] == "cancel":
+                        if Future.cancel(f):
+                            f.set_running_or_notify_cancel()
+                    elif not f.set_running_or_notify_cancel():
+                        pass
+                    elif inp["end"].startswith("exc"):
+                        f.set_exception(env.exc(("in", i), "FalsyErr" if inp["end"] == "exc-falsy" else "ScriptedError"))
+                    else:
+                        f.set_result(("in", i))
+                except Exception as e:
+                    env.rec("complete-raised", i, type(e).__name__)
+        return body
+
+    for k in range(2):
+        env.client(completer(k), "client-c%d" % k)
+    if spec["out_cancel"] is not None:
+        def canceller():
+            env.sleep(spec["out_cancel"])
+            env.rec("out-cancel", out.cancel())
+        env.client(canceller, "client-x")
+    env.join_all()
+    env.sleep(spec["settle"])
+    st = fut_state(out)
+    env.rec("final-out", [st[0]])
+    env.objs["final_out"] = st
+    env.objs["ins_done"] = [f.done() for f in raw]
+    pc = sys.modules.get("prometheus_client")
+    snap = pc._snapshot() if pc is not None and hasattr(pc, "_snapshot") else None
+    env.objs["metrics"] = snap
+    env.rec("metrics", sorted((list(k), list(v)) for k, v in (snap or {}).items() if not k[0].endswith(("_time", "_delay"))))
+
+
+def check_comb(spec, env):
+    snap = env.objs.get("metrics")
+    if snap is None:
+        return [{"oracle": "setup", "sig": "metrics-stub-not-loaded", "msg": "prometheus_client stub not loaded"}]
+    out = []
+    st = env.objs["final_out"]
+    T = COMB_TYPE[spec["comb"]]
+    all_done = st[0] != "pending" and all(env.objs["ins_done"])
+    for k, (v, mn) in sorted(snap.items()):
+        name = k[0]
+        if name.endswith(("_inprogress", "_queue")) and mn < 0:
+            out.append({"oracle": "negative-gauge", "sig": "gauge-negative|%s|%s" % (name, k[1]), "msg": "gauge %s%r went down to %r (f_%s)" % (name, k[1:], mn, spec["comb"])})
+        if all_done and name == "more_executors_future_inprogress" and v != 0:
+            out.append({"oracle": "gauge-drift", "sig": "gauge-nonzero-at-quiescence|future_inprogress|%s" % k[1],
+                        "msg": "f_%s: every input and the output are finished, yet %s%r = %r" % (spec["comb"], name, k[1:], v)})
+
+    def val(metric, t):
+        return sum(v for (k, (v, mn)) in snap.items() if k[0] == "more_executors_" + metric and k[1] == t)
+    tot, can, err = val("future_total", T), val("future_cancel", T), val("future_error", T)
+    if spec["comb"] in ("and", "or") and len(spec["inputs"]) == 1:
+        return out      # a single input is returned as is: no new future, nothing to count
+    if tot < 1:
+        out.append({"oracle": "future-counter", "sig": "future_total-missing|%s" % T, "msg": "f_%s created a future but future_total{type=%s} = %r" % (spec["comb"], T, tot)})
+    if st[0] == "cancelled" and can < 1:
+        out.append({"oracle": "future-counter", "sig": "future_cancel-mismatch|%s" % T, "msg": "the f_%s output ended cancelled but future_cancel{type=%s} = %r" % (spec["comb"], T, can)})
+    if st[0] == "exc" and err < 1:
+        out.append({"oracle": "future-counter", "sig": "future_error-mismatch|%s" % T, "msg": "the f_%s output failed (%r) but future_error{type=%s} = %r" % (spec["comb"], type(st[1]).__name__, T, err)})
+    clean = st[0] == "val" and all(i["end"] == "val" for i in spec["inputs"]) and not any(e[3] == "out-cancel" for e in env.sim.log)
+    if clean:
+        for k, (v, mn) in sorted(snap.items()):
+            if k[0] in ("more_executors_future_cancel", "more_executors_future_error") and v != 0:
+                out.append({"oracle": "future-counter", "sig": "%s-nonzero-on-clean-run|%s" % (k[0].replace("more_executors_", ""), k[1]),
+                            "msg": "f_%s: every input succeeded and nothing was cancelled, yet %s%r = %r" % (spec["comb"], k[0], k[1:], v)})
+    return out
+
+
 def gen(rng, tier):
-    if rng.random() < 0.12:
+    r0 = rng.random()
+    if r0 < 0.12:
+        return gen_comb(rng)
+    if r0 < 0.24:
         return gen_timeout_focus(rng)
     depth = rng.choice([1, 1, 2, 2, 3])
     base = {"kind": rng.choice(["sync", "pool", "pool", "spy"]), "n": rng.choice([1, 2]), "name": rng.choice([None, "bx"])}
@@ -117,6 +226,8 @@ def gen(rng, tier):
 
 
 def run(spec, env):
+    if spec.get("mode") == "comb":
+        return run_comb(spec, env)
     sr = StackRun(spec, env)
     env.objs["sr"] = sr
     sr.build()
@@ -160,6 +271,8 @@ def check(spec, env):
     sim = env.sim
     if abnormal(sim):
         return []
+    if spec.get("mode") == "comb":
+        return check_comb(spec, env)
     snap = env.objs.get("metrics")
     if snap is None:
         return [{"oracle": "setup", "sig": "metrics-stub-not-loaded", "msg": "prometheus_client stub not loaded"}]
@@ -330,6 +443,11 @@ def check(spec, env):
 def probes(spec, env):
     sim = env.sim
     log = sim.log
+    if spec.get("mode") == "comb":
+        return {"combinator:" + spec["comb"]: 1, "metric-label-sets-checked": len(env.objs.get("metrics") or {}),
+                "history:input-failed-or-cancelled": sum(1 for i in spec["inputs"] if i["end"] != "val"),
+                "history:output-cancel": sum(1 for e in log if e[3] == "out-cancel"),
+                "_nontrivial": sim.preemptions > 0 and len(spec["inputs"]) >= 2}
     pr = {"history:cancel-True": sum(1 for e in log if e[3] == "op-ret" and e[4] == "cancel" and e[6] is True),
           "history:cancel-False": sum(1 for e in log if e[3] == "op-ret" and e[4] == "cancel" and e[6] is False),
           "history:retries": sum(1 for e in log if e[3] == "call" and e[5] > 1),
@@ -345,6 +463,17 @@ def probes(spec, env):
 def shrink(spec):
     def cp():
         return json.loads(json.dumps(spec))
+    if spec.get("mode") == "comb":
+        for i in range(len(spec["inputs"])):
+            if len(spec["inputs"]) > 1:
+                s = cp()
+                del s["inputs"][i]
+                yield s
+        if spec["out_cancel"] is not None:
+            s = cp()
+            s["out_cancel"] = None
+            yield s
+        return
     for i in range(len(spec["layers"])):
         if len(spec["layers"]) > 1:
             s = cp()
